@@ -269,10 +269,6 @@ finding("C11-order-by-alias-choice-hash-dependent", "C11", [],
  "When the column a sort refers to is visible under several names (`select {c0 = id, id, c1 = id} | sort {id, (c0 * 2)}`), the name used in the emitted ORDER BY (`ORDER BY c0, _expr_0` vs `ORDER BY c1, _expr_0`) is whichever alias a hash-map iteration in the sort post-processing meets first: the SQL text differs between runs (the rows do not).",
  None)
 
-finding("C11-helper-column-qualifier-hash-dependent", "C11", [],
- "two outputs for the same call that are equal once the relation qualifier in front of every generated helper column (`x._expr_N`) is blanked",
- "`let l0 = (.. | sort {b, s, -id} | take .. | select {b})  let l1 = (from l0 | take .. | sort {(l0.b * 0)})  from l1 | join r0 = l1 (==b) | select {..} | sort {b} | filter ..`: the computed sort key of the self-joined let-table is projected as `table_2._expr_0` in one run and as `l1._expr_0` in another (the first names a CTE that is not in that FROM clause: invalid SQL). Which relation instance is credited with the helper column follows hash-map order.",
- None)
 finding("C07-join-rewritten-to-intersect", "C07", ["C01", "C05", "C09"],
  "the program has no `intersect`, the emitted SQL contains INTERSECT ALL and the binder reports a set operation between different arities",
  "preprocess.rs rewrites an inner join whose condition equates every (remaining) column of both sides into INTERSECT ALL. After column pruning or with a wildcard side the operands differ in arity: `from l0 | join t1 (c0 == id) | select {c3 = c0 + 1, c0}` -> `SELECT c0 FROM l0 INTERSECT ALL SELECT * FROM t1`. (When the arities do agree the rewrite still changes multiplicities: m x n matching pairs become min(m, n) rows; not executable on SQLite, which has no INTERSECT ALL.)",
@@ -342,7 +338,7 @@ finding("C08-nul-character", "C08", [],
  None)
 
 k = json.load(open(os.path.join(V, "known_findings.json")))
-REMOVED = {"C11-column-order-hash-dependent", "C11-error-text-hash-dependent", "C02-double-negation", "C06-sorted-let-aggregate-key-recomputed"}  # repaired by a fix: commit (see "fixed")
+REMOVED = {"C11-column-order-hash-dependent", "C11-error-text-hash-dependent", "C02-double-negation", "C06-sorted-let-aggregate-key-recomputed", "C11-helper-column-qualifier-hash-dependent"}  # repaired by a fix: commit (see "fixed")
 keep = [f for f in k["findings"] if f["id"] not in {x["id"] for x in FINDINGS} and f["id"] not in REMOVED]
 k["findings"] = keep + FINDINGS
 json.dump(k, open(os.path.join(V, "known_findings.json"), "w"), indent=1, ensure_ascii=False)
